@@ -691,9 +691,15 @@ fn changes_step_scenario(vis: Vis, known_fixed: Option<bool>, removal_fixed: Opt
     } else if structural {
         // C02: an entity with any insertion / removal / (re)appearance is sent atomically in the
         // update message: every collected mutation is merged into it, none stays in a mutate message.
-        assert!(change_records == 1 && mutated_entities == 0);
         let expected_components = insertion.iter().filter(|&&b| b).count() + mutation.iter().filter(|&&b| b).count();
-        assert!(upd::change_components_len(&auth.updates, 0) == expected_components);
+        // A change record exists iff there is something to put into it (a pending removal alone
+        // travels in the removals section) or the entity is new for the client.
+        let expect_record = new_entity || expected_components > 0;
+        assert!(mutated_entities == 0);
+        assert!(change_records == if expect_record { 1 } else { 0 });
+        if expect_record {
+            assert!(upd::change_components_len(&auth.updates, 0) == expected_components);
+        }
         assert!(belief_after == Some(this_run));
     } else {
         // C11: only what changed since the acknowledged tick is sent, as a mutation.
@@ -722,7 +728,7 @@ fn changes_step_scenario(vis: Vis, known_fixed: Option<bool>, removal_fixed: Opt
         }
     }
     kani::cover!(change_records + mutated_entities <= 1, "reached the end");
-    kani::cover!(hidden || change_records + mutated_entities == 1 || (known && !structural), "something was collected, or nothing had to be");
+    kani::cover!(hidden || change_records + mutated_entities == 1 || known, "something was collected, or nothing had to be");
     core::mem::forget((rows, world, serialized, removal_buffer, related));
 }
 
@@ -830,4 +836,53 @@ fn c08_collect_changes_hidden() {
 #[kani::stub(log::max_level, log_off)]
 fn c08_collect_changes_gained() {
     changes_step(Vis::Gained);
+}
+
+// -------------------------------------------------------------------------------------------
+// C03: removals follow visibility
+
+/// `ops`: visibility operations (1 = show, 2 = hide) applied to entity 0 inside the tick window,
+/// starting from a client that holds the entity; then `collect_removals` with one pending removal.
+fn removal_scenario(policy: Policy, ops: [u8; 2]) {
+    let mut rows = [client_holding_both(policy)];
+    let mut visible = true;
+    for kind in ops {
+        if kind > 0 {
+            let v = kind == 1;
+            rows[0].visibility.as_mut().unwrap().set_visibility(ENTS[0], v);
+            visible = v;
+        }
+    }
+    let mut removal_buffer = RemovalBuffer::default();
+    removal_buffer.removals.insert(ENTS[0], vec![(ComponentId::new(0), fns_id(3))]);
+    let mut serialized = SerializedData::default();
+    collect_removals(&mut serialized, &mut Query::new(&mut rows), &removal_buffer).unwrap();
+    let records = upd::count_removal_entity(&rows[0].auth().updates, &serialized, ENT_BYTE[0]);
+    // A client that holds the entity and can still see it must be told about the removed
+    // component in this tick (the buffer is cleared afterwards); a hidden entity gets none.
+    assert!(records == if visible { 1 } else { 0 });
+    assert!(upd::count_removal_entity(&rows[0].auth().updates, &serialized, ENT_BYTE[1]) == 0);
+    core::mem::forget((rows, removal_buffer, serialized));
+}
+
+// HARNESS: c03_removals_follow_visibility
+// PROPS: C03 C08
+// TIER: quick
+// TIMEOUT: 1200
+// DRIVES: collect_removals, ClientVisibility::is_visible, ClientVisibility::set_visibility, Updates::add_removals, SerializedData::write_fn_ids, SerializedData::write_entity
+// BOUNDS: a component removal pending for an entity the client holds; no policy, and for blacklist and whitelist the windows [], [hide], [hide, show], [show, hide] (enumerated concretely); stand-in maps CAP 4; unwind 6
+#[kani::proof]
+#[kani::unwind(6)]
+#[kani::stub(log::max_level, log_off)]
+fn c03_removals_follow_visibility() {
+    removal_scenario(Policy::All, [0, 0]);
+    removal_scenario(Policy::Blacklist, [0, 0]);
+    removal_scenario(Policy::Blacklist, [2, 0]);
+    removal_scenario(Policy::Blacklist, [2, 1]);
+    removal_scenario(Policy::Whitelist, [0, 0]);
+    removal_scenario(Policy::Whitelist, [2, 0]);
+    removal_scenario(Policy::Whitelist, [2, 1]);
+    removal_scenario(Policy::Whitelist, [1, 2]);
+    kani::cover!(true, "all scenarios executed");
+    kani::cover!(ENT_BYTE[0] == 0, "entity encoding as assumed");
 }
